@@ -77,7 +77,9 @@ def kernel_batch(batch):
 # ---------------------------------------------------------------- (b) real runs
 KINDS = {"pyexc": '@s = int(#a)', "argtype": '@s = add(#a, 1)', "rule": '@s = substring(#b, int(#n))',
          "nested": 'yes() -> @t = add(#a, 2)', "rhs": '@q = subtract(int(#a), 1)', "lasts": 'last.nocontrib() -> @s = int("zz")', "skipafter": '@s = int(#a) skip() yes()',
-         "stopafter": '@s = int(#a) eq.nocontrib(#b, "y") -> stop() yes()'}
+         "stopafter": '@s = int(#a) eq.nocontrib(#b, "y") -> stop() yes()',
+         # the error is in the condition of a when/do whose action is fail(): a condition that raised did not come out true, the action does not run
+         "whenfail": 'lt(int(#a), -5) -> fail()'}      # (-5: lt() answers <= — open finding D1 — and a cell may hold 0)
 
 
 def run_impl(job):
@@ -146,6 +148,9 @@ def expected(kind, pol, vm, offending, zero=False):  # noqa: F811
     e = _expected(kind, pol, vm, offending, zero)
     if kind == "skipafter" and e["lines"] is not None:
         e["lines"] = []          # a skip() after the offending component: no line matches; the error is handled all the same
+    if kind == "whenfail" and e["lines"] is not None:
+        # the condition is false on every other line (a when/do votes its condition), so no line matches (validation-mode: match is not combined with this kind)
+        e["lines"] = []
     if kind == "stopafter":
         # a later component of the offending line stops the run (stop() is not the last component, so that line is not returned):
         # the error raised before the stop is handled all the same
@@ -213,6 +218,8 @@ def run(ctx):
                 offs = [rng.choice(OFF)] if quick else OFF
                 if kind == "lasts":
                     offs = [set()]
+                if kind == "whenfail" and vm.get("match") is True:
+                    continue
                 for off in offs:
                     rjobs.append((kind, pol, vm, off))
     if quick:
@@ -268,7 +275,7 @@ def run(ctx):
     ctx.coverage.update({
         "evaluations": len(kcases) + len(rjobs), "distinct_nontrivial": len({(j[0], j[1], vm_text(j[2]), tuple(sorted(j[3]))) for j, o in zip(rjobs, rres) if o.get("error_lines") or o["exc"]}),
         "rule": "handler: all 64 policies x all 81 validation-mode comments (raise/print/stop/fail each absent, set, negated) x prior (valid, stopped) states (quick: 1, thorough: 4), real "
-                "ErrorHandler.handle_error on a parsed CsvPath; runs: 8 error kinds (Python exception, argument type, function rule, right of '->', nested, last() on a blank final record, error followed by skip() on the same line, error followed by a non-final stop() on the same line) "
+                "ErrorHandler.handle_error on a parsed CsvPath; runs: 9 error kinds (the condition of 'cond -> fail()' raising, Python exception, argument type, function rule, right of '->', nested, last() on a blank final record, error followed by skip() on the same line, error followed by a non-final stop() on the same line) "
                 "x 64 policies x 5 validation modes x offending-line sets {first, second, last, all, middle two} (quick: one set each), and again over a file without a header row scanned from line 0 with offending sets {0}, {0,2}, {3}, all, real collect() with a TestPrinter. Non-trivial = "
                 "distinct run in which an error was recorded or raised.",
         "samples": [kcase(0), rcase(len(rjobs) // 3)],
